@@ -272,3 +272,20 @@ _amend('C01', 'The lowp accuracy clause (inversesqrt: relative error below 2^-8)
 _amend('C03', 'Double is compared for the matrix, geometric and common operators and the splat helpers; the AVX level (AVX-only arms of the 256-bit double code) is part of the quick tier for double.')
 _amend('C04', 'rotation(u, v): the identity shortcut for nearly parallel vectors must have a threshold within 16 epsilon of 1 for the element type.')
 _amend('C20', 'gtx/integer (pow for fixed exponents, mod, floor_log2, nlz) is part of the corpus.')
+# ---- session of 2026-10-02 ----
+_amend('C04', 'Dual quaternions (gtx/dual_quaternion, only its own header included): product, point transform q (0,v) conj(q) + 2 d conj(q) and its inverse, x * inverse(x) == 1, the constructor from rotation and translation ((0,t) q / 2), '
+       'mat2x4 casts by component name, mat3x4_cast rows == (rotation matrix row, translation component), and dualquat_cast(mat3x4_cast(x)) == +-x on every branch of the largest-component selection for unit dual quaternions '
+       '(refuted with exact rational unit quaternions from Pythagorean quadruples).', 'Superseded: dual quaternions are now decided (rules/c04_dq.py).')
+_amend('C06', 'The templated packUnorm / packSnorm / unpackUnorm / unpackSnorm are analysed for 8-, 16-, 32- and 64-bit codes with float and double (scale 2^w - 1 resp. 2^(w-1) - 1 exactly, decoder factor its correctly rounded reciprocal in floatType, lane i <-> code i).',
+       'Known finding: with 32-bit codes and float, or 64-bit codes and float / double, the scale is not representable and x = 1 converts out of range (undefined, optimisation-level dependent).')
+_amend('C12', 'gtx lxNorm (both overloads): (sum_i |d_i|^p)^(1/p) with p = float(Depth) - outer / inner exponents and the three bases |d_x|, |d_y|, |d_z|; lMaxNorm == max of the absolute values.')
+_amend('C03', 'The corpus is compared once more in the g++ preprocessor view of the SIMD headers (compiler-keyed arms such as _mm256_fmadd_pd in compute_fma<4, double>), at AVX2 with and without FMA; an arm that does not compile at a level is an existence violation.')
+_amend('C15', "C17's default-configuration constructor kernels (vector, matrix incl. mixed-type columns / elements, quaternion) are part of the language-level differential.")
+_amend('C17', 'Matrix constructors from columns and from scalars of mixed element types (the templated V1..V4 / X1..W4 constructors) for all nine shapes.')
+_amend('C20', 'Memory clause (out-of-bounds / misaligned access, strict aliasing): the kernels of all rule modules plus layout-sensitive kernels (packHalf / unpackHalf<L>, templated pack functions, bit casts, make_* from packed objects, lowp inversesqrt) under the '
+       'intrinsic configurations are inspected by irtool --memcheck on the inlined but otherwise unoptimised IR: every load, store and constant-length memcpy / memmove / memset at a constant offset of a local object, kernel argument or global must lie inside the object '
+       'and be sufficiently aligned; a typed scalar memory intrinsic (plain float / double access in the baseline compiler\'s headers: _mm_store_sd, _mm_store_ss, _mm_load_ss, _mm_load1_pd ...) may only touch members of that scalar type (strict aliasing).',
+       'Superseded for the memory clause: out-of-bounds / misaligned constant-offset accesses and typed-intrinsic puns are now decided, including the SIMD paths. Not decided there: accesses through run-time indices (sanitizer inventory) or pointers loaded from memory, '
+       'aliasing violations other than through the listed intrinsics. Known finding: make_matCx3 under GLM_FORCE_DEFAULT_ALIGNED_GENTYPES reads C * 4 elements. Six defects found by the memory rules were repaired (out-of-bounds reads in the dvec3 conversion, packHalf / unpackHalf<3>, make_vec3; '
+       'strict-aliasing violations in the vec3 conversions, which g++ -O2 miscompiled).')
+CHECKS['C20']['technique'] = CHECKS['C20']['technique'] + '; object-bounds / alignment / typed-access analysis of constant-offset memory accesses on inlined unoptimised LLVM IR (irtool --memcheck)'
